@@ -335,3 +335,9 @@ Definition run_C13 (op : N) (seqs : list str) (sub : str) (rf : rfarg) (start : 
     | _ => match basket_match seqs sub rf start gap with Some l => VL (map (VOpt show_bm) l) | None => assertion_error end
     end in
   VL [VB (wf_C13 seqs sub rf start gap); res].
+
+(* histories (state independence): the model is pure, so a history of calls is the list of the models of its calls;
+   in the domain iff every call is *)
+Definition hist_join (l : list val) : val :=
+  VL [VB (forallb (fun v => match v with VL [VB true; _] => true | _ => false end) l);
+      VL (map (fun v => match v with VL [_; r] => r | _ => VNone end) l)].
